@@ -145,6 +145,8 @@ where
 	let mut limited_body = Limited::new(body, max_body_size as usize);
 
 	let mut is_single = None;
+	// Leading whitespace bytes skipped so far; they may be spread over several chunks.
+	let mut skipped = 0_usize;
 
 	while let Some(frame_or_err) = limited_body.frame().await {
 		let frame = frame_or_err.map_err(HttpError::Stream)?;
@@ -152,10 +154,12 @@ where
 			continue;
 		};
 
-		// If it's the first chunk, trim the whitespaces to determine whether it's valid JSON-RPC call.
-		if received_data.is_empty() {
+		// Until the first non-whitespace byte has been seen, trim the whitespaces to determine whether it's valid
+		// JSON-RPC call. How the body is split into chunks must not matter.
+		if is_single.is_none() {
+			let window = 128_usize.saturating_sub(skipped);
 			let first_non_whitespace =
-				data.chunk().iter().enumerate().take(128).find(|(_, byte)| !byte.is_ascii_whitespace());
+				data.chunk().iter().enumerate().take(window).find(|(_, byte)| !byte.is_ascii_whitespace());
 
 			let skip = match first_non_whitespace {
 				Some((idx, b'{')) => {
@@ -165,6 +169,11 @@ where
 				Some((idx, b'[')) => {
 					is_single = Some(false);
 					idx
+				}
+				// Only whitespace so far and still within the window: look at the next chunk.
+				None if data.chunk().len() < window => {
+					skipped += data.chunk().len();
+					continue;
 				}
 				_ => return Err(HttpError::Malformed),
 			};
